@@ -28,4 +28,7 @@ Configs2 == { [start |-> s, nodes |-> ("t0.a" :> N(kp[1], ep[1]) @@ tag :> N(kp[
 ConfigsAll   == Configs1 \cup Configs2
 ConfigsSmall == { [start |-> DayIndex(2024, 2, 26) * DAY, nodes |-> ("t0.a" :> N(k, es))] : k \in Kinds, es \in {{W(2)}, {B, M(1)}} }
 JumpsStd == {3600, DAY, 7 * DAY, 31 * DAY}
+(* NOT a property: expected to be violated by the "rearm" variant (a timed event fires again in a later
+   period) -- the non-vacuity witness for C20_Recurs / C20_Once *)
+NoSecondFiring == \A n \in Nodes : lastFire[n] < cfg.start + 6 * DAY
 =============================================================================
